@@ -163,6 +163,15 @@ func (fv *FV) allocRef(e *Env, base string) Term {
 	fv.s.declFun("akind", []string{sRef}, sInt)
 	fv.s.assume(and(not(eq(r, tNull)), not(sel(e.alloc, r)), eq(fv.rootOf(r), r), eq(app(sInt, "akind", r), intLit(0))))
 	if !e.dead {
+		// a fresh reference is not stored in any pointer field yet
+		ptrSort := arrSort(sRef, sRef)
+		for _, c := range sortedKeys(fv.compSort) {
+			if fv.compSort[c] != ptrSort {
+				continue
+			}
+			cur := fv.heapGet(e, c, ptrSort)
+			fv.s.assume(Term{fmt.Sprintf("(forall ((x Ref)) (! (not (= (select %s x) %s)) :pattern ((select %s x))))", cur.S, r.S, cur.S), sBool})
+		}
 		na := fv.s.freshConst("alloc", arrSort(sRef, sBool))
 		fv.s.assume(eq(na, store(e.alloc, r, tTrue)))
 		e.alloc = na
@@ -174,6 +183,8 @@ func (fv *FV) allocRef(e *Env, base string) Term {
 func (fv *FV) allocObject(e *Env, t types.Type, base string) Term {
 	r := fv.allocRef(e, base)
 	fv.zeroObject(e, r, t)
+	// the address of a T object has dynamic type *T when stored in an interface
+	fv.s.assume(eq(fv.dynOf(r), fv.dynTag(types.NewPointer(t))))
 	return r
 }
 
@@ -592,8 +603,11 @@ func (fv *FV) ident(e *Env, id *ast.Ident) Value {
 		if isPkgLevel(o) {
 			return fv.globalVar(e, o)
 		}
-		if fv.spec != nil {
+		if fv.spec != nil && !fv.spec.lenient {
 			fv.specErr("variable " + o.Name() + " has no value here")
+		}
+		if fv.spec != nil && fv.spec.lenient {
+			return fv.freshValue(o.Type(), o.Name()+"?")
 		}
 		// captured / not yet defined variable: unknown
 		v := fv.freshValue(o.Type(), o.Name())
@@ -686,6 +700,7 @@ func (fv *FV) addrOf(e *Env, x ast.Expr, t types.Type) Value {
 		// pointer to a scalar field: use a per-field address function
 		name := "pa$" + sanitize(lv.comp)
 		fv.s.declFun(name, []string{sRef}, sRef)
+		fv.s.axiom(name, fmt.Sprintf("(forall ((r Ref)) (! (not (= (%s r) null)) :pattern ((%s r))))", name, name))
 		fv.note("address of scalar location %s: pointer identity only", lv.comp)
 		return Value{K: kScalar, T: app(sRef, name, lv.idx[0]), Type: t}
 	}
@@ -1271,7 +1286,11 @@ func (fv *FV) load(e *Env, lv LV) Value {
 		arr := fv.load(e, *lv.inner)
 		_, es := sortOf(lv.typ)
 		if arr.T.Sort == sBlob {
-			return Value{K: kScalar, T: app(sInt, "blob_at", arr.T, lv.elemI), Type: lv.typ}
+			v := app(sInt, "blob_at", arr.T, lv.elemI)
+			if fv.spec == nil {
+				fv.assume(e, rangeFact(v, lv.typ)) // elements of a byte array are bytes
+			}
+			return Value{K: kScalar, T: v, Type: lv.typ}
 		}
 		if arr.T.Sort == arrSort(sInt, es) {
 			v := sel(arr.T, lv.elemI)
@@ -1463,6 +1482,7 @@ func (fv *FV) composite(e *Env, x *ast.CompositeLit) Value {
 	switch u := bt.Underlying().(type) {
 	case *types.Struct:
 		r := fv.allocRef(e, "lit")
+		fv.s.assume(eq(fv.dynOf(r), fv.dynTag(types.NewPointer(bt))))
 		// evaluate field values first, then zero + set
 		type fv_ struct {
 			f *types.Var
